@@ -98,6 +98,9 @@ RECV_MODELS = [
 RISKCFG_MODELS = [
     {"name": "riskcfg", "module": "MC_RiskCfg.tla", "cfg": {"quick": "MC_RiskCfgQuick.cfg", "thorough": "MC_RiskCfgThorough.cfg"},
      "setup": "setups/riskcfg.json", "init_from_setup": True, "timeout": {"quick": 900, "thorough": 10000}},
+    # spot = time-weighted price, zero confidence: e-mode entry sets x borrow boundary x liquidation attempts (C13's consequence)
+    {"name": "riskcfgflat", "module": "MC_RiskCfg.tla", "cfg": {"quick": "MC_RiskCfgFlatQuick.cfg", "thorough": "MC_RiskCfgFlatThorough.cfg"},
+     "setup": "setups/riskcfgflat.json", "init_from_setup": True, "timeout": {"quick": 900, "thorough": 10000}},
 ]
 
 
